@@ -643,6 +643,16 @@ def p_reject(a, b):
             got = False
         if got != w:
             bad.append(f"{name}: {'accepted' if got else 'rejected'}, rule says {'accept' if w else 'reject'}")
+    if want and not bad:
+        # an accepted operand behaves as the whole-pixel shift it is within tolerance of
+        m = amul(ainv(a["aff"]), b["aff"])
+        kx, ky = round(m[2]), round(m[5])
+        B0 = mk_gbox(gb(b["shape"], amul(a["aff"], atr(kx, ky)), b["crs"]))
+        for name, x, y in [("|", A | B, A | B0), ("&", A & B, A & B0)]:
+            if tuple(x.shape) != tuple(y.shape) or aff_of(x.affine) != aff_of(y.affine):
+                bad.append(f"a {name} b = {x!r} but with b moved onto the grid (shift {(kx, ky)}) it is {y!r}")
+        if A.overlap_roi(B) != A.overlap_roi(B0):
+            bad.append(f"overlap_roi {A.overlap_roi(B)} but {A.overlap_roi(B0)} for the exact shift {(kx, ky)}")
     return (not bad), "; ".join(bad) + f" (relative transform {amul(ainv(a['aff']), b['aff'])})" if bad else ""
 
 
